@@ -15,9 +15,12 @@ def handle (l : Line) : Verdict :=
       let v := be16 a b
       if Spec.isStunType v then
         let w := hex4 v
+        let c := Spec.classOfType v
+        let m := Spec.methodOfType v
+        let echo := if c = 0 then s!":{hex4 (Spec.interleave 2 m)}:{hex4 (Spec.interleave 3 m)}" else ""
         exact "mtype frombytes ok" l.obs
-          s!"ok cls={Spec.classOfType v} meth={Spec.methodOfType v} same=1 wire={w} wire2={w}"
-      else exact "mtype frombytes notstun" l.obs "err notstun"
+          s!"ok cls={c} meth={m} same=1 wire={w} wire2={w} hdr=ok:{c}:{m} msg=ok:{c}:{m}:{c}{echo}"
+      else exact "mtype frombytes notstun" l.obs "err notstun hdr=refused msg=refused"
     | _ => .bad "mtype frombytes expects two bytes" ""
   | "fcm" =>
     match (l.kv.get "c").toNat?, (l.kv.get "m").toNat? with
